@@ -457,7 +457,9 @@ fn concurrent(rng: &mut Rng, ctx: &mut Ctx) {
     let watchdog = fin <= -1000;
     let fin = if watchdog { -1000 - fin } else { fin };
     if watchdog {
-        ctx.inconclusive.push("concurrent watchers did not catch up within the 10 s wall-clock watchdog (not a verdict; the sequential monitor decides staleness)".into());
+        // not a verdict (the sequential monitor decides staleness) and not a reason to discard the
+        // other histories: counted, and the floors below decide whether enough was observed
+        ctx.count("conc.histories_watchdog_expired");
     }
     let recs = recs.lock().unwrap().clone();
     let deadline = std::time::Instant::now() + std::time::Duration::from_secs(2);
@@ -471,7 +473,7 @@ fn concurrent(rng: &mut Rng, ctx: &mut Ctx) {
                 o.sort_by_key(|r| r.call);
                 ctx.violation("not-linearizable", format!("no linearization of set/clear/check on {:?}: {:?}", SERVICES[svc], o.iter().map(|r| format!("{:?}@{}-{}", r.op, r.call, r.ret)).collect::<Vec<_>>()));
             }
-            None => ctx.inconclusive.push("linearizability checker timed out (2 s) on one history".into()),
+            None => ctx.count("conc.checker_timeouts"),
         }
     }
     // watch constraints on "a": every report is the initial value or a value some writer set; last = final
